@@ -349,6 +349,9 @@ def split_tuple_values(fn):
     return n
 
 
+_ZIP = [0]
+
+
 def enumerate_to_index(fn, types):
     """D7  `for (i, e) in X.iter().enumerate() { body }`  ->  `for i in 0..X.len() { body[e := X[i]] }` when X is a pure place that the
     body does not assign / borrow mutably as a whole (same elements, same order; the index form is what the loop-nest extractor reads)."""
@@ -360,6 +363,50 @@ def enumerate_to_index(fn, types):
         it = lp["iter"]
         while it.get("k") == "blk" and not it["b"]["stmts"] and it["b"]["tail"] is not None:
             it = it["b"]["tail"]
+        if it.get("k") == "mcall" and it.get("name") == "zip" and len(it["args"]) == 1:
+            # `for (a, b) in A.iter().zip(B.iter_mut())` over two pure places: index form with a fresh index variable
+            def side(e):
+                while e.get("k") == "blk" and not e["b"]["stmts"] and e["b"]["tail"] is not None:
+                    e = e["b"]["tail"]
+                if e.get("k") == "mcall" and e.get("name") in ("iter", "iter_mut") and not e["args"] and _pure_place_idx(e["recv"]):
+                    return e["recv"]
+                return None
+            A, B = side(it["recv"]), side(it["args"][0])
+            pat = lp["pat"]
+            if A is None or B is None or not (pat.get("k") == "tuple" and len(pat["ps"]) == 2):
+                continue
+            pa, pb = pat["ps"]
+            while pa.get("k") in ("ref", "deref"):
+                pa = pa["p"]
+            while pb.get("k") in ("ref", "deref"):
+                pb = pb["p"]
+            if not (pa.get("k") == "bind" and pb.get("k") == "bind" and not pa.get("sub") and not pb.get("sub")):
+                continue
+            _ZIP[0] += 1
+            ih = 9000000 + _ZIP[0]
+            idx_local = {"k": "local", "name": "_zi%d" % _ZIP[0], "hid": ih, "t": usize_t, "line": lp.get("line")}
+            rep = {pa["hid"]: {"k": "index", "b": copy.deepcopy(A), "i": idx_local, "t": pa.get("t"), "line": lp.get("line")},
+                   pb["hid"]: {"k": "index", "b": copy.deepcopy(B), "i": idx_local, "t": pb.get("t"), "line": lp.get("line")}}
+
+            def subst2(x):
+                if isinstance(x, list):
+                    return [subst2(v) for v in x]
+                if not isinstance(x, dict):
+                    return x
+                if x.get("k") == "local" and x.get("hid") in rep:
+                    return copy.deepcopy(rep[x["hid"]])
+                for k_, v in list(x.items()):
+                    if isinstance(v, (dict, list)):
+                        x[k_] = subst2(v)
+                return x
+            lp["body"] = subst2(lp["body"])
+            lp["pat"] = {"k": "bind", "name": "_zi%d" % _ZIP[0], "hid": ih, "mode": "BindingMode(No, Not)", "t": usize_t}
+            lp["iter"] = {"k": "struct", "path": "std::ops::Range", "mac": "Desugaring(RangeExpr)", "line": lp.get("line"),
+                          "fs": [["start", {"k": "lit", "v": "0", "t": usize_t}],
+                                 ["end", {"k": "mcall", "name": "len", "callee": "std::vec::Vec::<T, A>::len", "recv": copy.deepcopy(A), "args": [], "t": usize_t, "line": lp.get("line")}]]}
+            lp["from_zip"] = True
+            n += 1
+            continue
         if not (it.get("k") == "mcall" and it.get("name") == "enumerate" and not it["args"]):
             continue
         src = it["recv"]
